@@ -483,11 +483,7 @@ def run_read_race(case, st):
         st.outcome(f"read-race reads={got}")
 
     if "schedule" in case:
-        simenv.new_world()
-        s = vsched.Scheduler(case["schedule"], line_root=root, horizon=20000, after_calls=True)
-        result = harness(s)
-        s.run()
-        on_exec(s, result())
+        on_exec(*vsched.replay(harness, case, line_root=root, horizon=20000, after_calls=True))
         return
     stats = vsched.explore_schedules(harness, case["P"], on_exec=on_exec, line_root=root, horizon=20000, after_calls=True)
     st.states += stats["executions"]
@@ -591,11 +587,7 @@ def run_wait(case, st):
             st.violation("C15:wait:timeout-time", rc, TIMEOUT, t)
 
     if "schedule" in case:
-        simenv.new_world()
-        s = vsched.replay_scheduler(case)
-        result = harness(s)
-        s.run()
-        on_exec(s, result())
+        on_exec(*vsched.replay(harness, case))
         return
     stats = vsched.explore_with_crosscheck(st, harness, P, on_exec, case)
     st.states += stats["executions"]
